@@ -609,6 +609,17 @@ impl Session {
     }
 }
 
+impl Drop for Session {
+    fn drop(&mut self) {
+        // The session endpoint goes away with its engine. No outcome will reach the sends
+        // that were made on it: whoever waits for one is woken and finds the stop reason,
+        // which the engine has published by now.
+        for relay in self.link_by_input_handle.values_mut() {
+            relay.abandon_delivery_waiters();
+        }
+    }
+}
+
 impl endpoint::Session for Session {
     type AllocError = AllocLinkError;
     type BeginError = SessionStateError;
